@@ -11,11 +11,11 @@ import (
 
 // FuncResult is the outcome of generating obligations for one function.
 type FuncResult struct {
-	Key        string
-	Obls       []*Obligation
+	Key         string
+	Obls        []*Obligation
 	OutOfSubset string
-	Notes      []string
-	Paths      int
+	Notes       []string
+	Paths       int
 }
 
 // VerifyFunc generates the obligations of the function with the given key.
